@@ -813,7 +813,14 @@ def corr_body(var):
                 return
             mix = th.mixture
             got = (mix.xH if var == 'H' else mix.xS)(s._imol, s.T, s.P)
-            w.ensure(f'{var} of the resulting stream = specified {var}', w.eq(got, X))
+            if w.symbolic:
+                reproduced = w.eq(got, X)
+            else:
+                # float cross-check of a path model: equality up to rounding relative to the size of the summed terms n_i * h_i
+                models = (mix._H if var == 'H' else mix._S).models
+                scale = sum(abs(v) * abs(models[i](ph, s.T, s.P)) for ph, sv in W.rows_of(s) for i, v in sv.dct.items())
+                reproduced = abs(got - X) <= 1e-7 * max(scale, abs(X)) + 1e-9
+            w.ensure(f'{var} of the resulting stream = specified {var}', reproduced)
             w.ensure('P after the flash = specified P', w.eq(s.P, P))
             now = flows_now(s)
             for ID in IDs:
